@@ -160,7 +160,7 @@ def explore_scenarios(w_args, scenarios_fn, bound, procs=None, mp=False, with_fa
     """scenarios_fn(world) -> list of (name, init dict, [calls]).  One worker per scenario."""
     # multiprocessing mode: each scheduled thread stands for a forked process, so threading primitives are process-local
     a = dict(w_args, threading_mod=sched.fthreading_proclocal if mp else sched.fthreading,
-             multiprocessing_mod=sched.fmultiprocessing, sym_dirs=False, mp=mp)
+             multiprocessing_mod=sched.fmultiprocessing, sym_dirs=True, mp=mp)
     w0 = World(**a)
     names = [sc[0] for sc in scenarios_fn(w0)]
     NSPLIT = 8 if with_fault else 1      # a faulted scenario is split over workers by the residue of the fault index
@@ -210,7 +210,7 @@ def explore_scenarios(w_args, scenarios_fn, bound, procs=None, mp=False, with_fa
 
 def replay_schedule(w_args, scenarios_fn, k, log, bound, want_prefix, mp=False, fault_at=None):
     a = dict(w_args, threading_mod=sched.fthreading_proclocal if mp else sched.fthreading,
-             multiprocessing_mod=sched.fmultiprocessing, sym_dirs=False, mode="passthrough", mp=mp)
+             multiprocessing_mod=sched.fmultiprocessing, sym_dirs=True, mode="passthrough", mp=mp)
     w = World(**a)
     try:
         name, init, program = scenarios_fn(w)[k]
